@@ -282,12 +282,19 @@ func runCase(run *evid.Run, idx int) {
 		name := backendName(listRepo)
 		subj := []byte("the subject manifest")
 		subject = model.Digest(subj)
-		for _, reg := range members {
+		// the subject itself: present everywhere, never pushed (a dangling subject is allowed), present
+		// in one member only, or pushed and deleted again before the listing
+		subjectMode := rng.IntN(4)
+		for mi, reg := range members {
 			pushBlob(reg, name, []byte("{}"))
+			if subjectMode == 1 || subjectMode == 2 && mi > 0 {
+				continue
+			}
 			if _, err := reg.PushManifest(bg, name, "", subj, "application/x-opaque"); err != nil {
 				panic(err)
 			}
 		}
+		run.Count(fmt.Sprintf("referrers_subject_mode/%d", subjectMode), 1)
 		for i := 0; i < c.N; i++ {
 			mf := []byte(fmt.Sprintf(`{"schemaVersion":2,"mediaType":%q,"config":{"mediaType":"application/octet-stream","digest":%q,"size":2},"layers":[],"subject":{"mediaType":"application/x-opaque","digest":%q,"size":%d},"annotations":{"i":"%d-%d"}}`,
 				model.MTImage, model.Digest([]byte("{}")), subject, len(subj), idx, i))
@@ -297,6 +304,11 @@ func runCase(run *evid.Run, idx int) {
 				}
 			})
 			want = append(want, model.Digest(mf))
+		}
+		if subjectMode == 3 {
+			for _, reg := range members {
+				reg.DeleteManifest(bg, name, ociregistry.Digest(subject))
+			}
 		}
 		// a manifest with another subject must not show up
 		other := []byte(fmt.Sprintf(`{"schemaVersion":2,"mediaType":%q,"config":{"mediaType":"application/octet-stream","digest":%q,"size":2},"layers":[],"subject":{"mediaType":"application/x-opaque","digest":%q,"size":3}}`, model.MTImage, model.Digest([]byte("{}")), model.Digest([]byte("zzz"))))
